@@ -126,7 +126,7 @@ def collect_persist(cases, kinds, rep, stats, sig_of):
             stats["validated"] += 1
         seen = set()
         for kind, idx, msg in persist.oracle(c["raw"], c["ann"], c["impl"]):
-            if kind not in kinds or kind in seen:
+            if (kind not in kinds and kind.split(":")[0] not in kinds) or kind in seen:
                 continue
             seen.add(kind)
             findings.append({"kind": "oracle", "engine": "persist", "case": c, "idx": idx, "msg": msg,
